@@ -1,5 +1,6 @@
 import MxlVerif.Lemmas.C11
 import MxlVerif.Lemmas.C11Witness
+import MxlVerif.Lemmas.C11Keys
 import MxlVerif.Model.Queries
 namespace Mxl.C11
 open Mxl.C07 (resEq)
@@ -13,6 +14,19 @@ open Mxl.C07 (resEq)
 theorem C11_roundtrip_partial (c : NContent) (hc : Canonical c) (h : refsResolve c = true) :
     roundTrip [] c = .ok c.toContent :=
   roundTrip_ok c hc h
+
+/-- **Round trip, hypothesis on the input alone.**  If no key (`__name__` of a derived / reaction function,
+    `init_<name>` of an initial-assignment function, `<rxn>_stoich_<name>` of a coefficient function, the last two
+    moved off the component function names by `_free_name`) is shared by two different function objects, and no
+    component passes the same model name twice, the rebuilt model equals the original. -/
+theorem C11_roundtrip_input (c : NContent) (hc : Canonical c)
+    (hk : keysInjective c = true) (ha : argsNoDup c = true) :
+    roundTrip [] c = .ok c.toContent :=
+  roundTrip_ok c hc (refsResolve_of_input c hk ha)
+
+example : keysInjective wShared = true ∧ argsNoDup wShared = true
+    ∧ keysInjective wCross = true ∧ argsNoDup wCross = true
+    ∧ keysInjective wCollide = false ∧ argsNoDup wDimer = false := by decide +kernel
 
 /-- hence every observable agrees at every state: derivatives … -/
 theorem C11_roundtrip_behaviour (c : NContent) (hc : Canonical c) (h : refsResolve c = true)
